@@ -64,6 +64,42 @@ def fold_word(facts, owner, ret, n=3):
     return field, word, sk(init)
 
 
+def loop_word(facts, b, n=3):
+    """the same composition written as `let mut acc = init; for x in src { acc = acc * x }` -> (field, word, init) or None"""
+    src = None
+    step = None
+    init = None
+    acc_local = None
+    for p in SymEx(b, havoc_loops=True, max_paths=5000).run():
+        for e in p.calls():
+            nm = e.name.split('::')[-1]
+            if nm == 'into_iter' and e.args:
+                src = re.sub(r'#\d+\.\d+', '', show(e.args[0], -1000)).replace('&', '').replace('*', '')
+            if nm == 'mul' and len(e.args) == 2 and p.end == 'backedge':
+                a = [strip(x) for x in e.args]
+                kinds = ['acc' if x[0] == 'loopvar' else ('x' if re.sub(r'#\d+\.\d+', '', show(x, -1000)).replace('&mut _', 'IT').startswith('next(') else '?') for x in a]
+                if sorted(kinds) == ['acc', 'x']:
+                    step = 'acc*x' if kinds[0] == 'acc' else 'x*acc'
+                    acc_local = a[kinds.index('acc')][2]
+            if nm in ('id', 'clone') and e.args is not None and p.end in ('return', 'backedge') and init is None and nm == 'id':
+                init = re.sub(r'#\d+\.\d+', '', show(('call', e.name, e.args, e.site), -1000))
+        if p.end == 'return' and p.ret and p.ret[0] == 'loopvar' and acc_local is None:
+            acc_local = p.ret[2]
+    if src is None or step is None:
+        return None
+    m = re.match(r'(rev\()?iter\((?:deref\(|as_slice\()?arg1\.(\w+)\)?\)\)?$', src)
+    if not m:
+        return None
+    rev, field = bool(m.group(1)), m.group(2)
+    word = ['init']
+    order = list(range(n))
+    if rev:
+        order.reverse()
+    for i in order:
+        word = word + [str(i)] if step == 'acc*x' else [str(i)] + word
+    return field, word, (init or '?').replace('&', '')
+
+
 def run(facts, rep):
     need = ['forward', 'backward', 'forward_mat', 'backward_mat', 'reduce', 'append', 'merge']
     b = {n: facts.bodies.get(T + n) for n in need}
@@ -74,6 +110,7 @@ def run(facts, rep):
         rep.saw(v)
     want = {'forward': ('f_mats', ['2', '1', '0', 'init'], 'clone(arg2)'), 'backward': ('b_mats', ['0', '1', '2', 'init'], 'clone(arg2)'),
             'forward_mat': ('f_mats', ['init', '2', '1', '0'], 'id(*arg1.tgt_dim)'), 'backward_mat': ('b_mats', ['0', '1', '2', 'init'], 'id(*arg1.tgt_dim)')}
+    lw_cache = {}
     try:
         for fn, (wf, ww, wi) in want.items():
             folds = 0
@@ -81,7 +118,7 @@ def run(facts, rep):
                 if p.end != 'return':
                     continue
                 conds = [(sk(e.term).replace('&', '').replace('*', ''), e.value) for e in p.branches()]
-                lens = [(re.match(r'(Eq|Gt|Ge|Lt|Le|Ne)\(len\(arg1\.(\w+)\), (\d+)\)$', t), v) for t, v in conds]
+                lens = [(re.match(r'(Eq|Gt|Ge|Lt|Le|Ne)\((?:len|PtrMetadata)\((?:as_slice\()?arg1\.(\w+)\)?\), (\d+)\)$', t), v) for t, v in conds]
                 lens = [(m.group(1), m.group(2), int(m.group(3)), v) for m, v in lens if m]
                 r = strip(p.ret)
                 if r[0] == 'call' and r[1].split('::')[-1] == 'fold':
@@ -106,7 +143,9 @@ def run(facts, rep):
                     continue
                 # shortcut path
                 s = sk(r).replace('&', '').replace('*', '')
-                m = re.match(r'(?:clone\()?index\(arg1\.(\w+), (\d+)\)\)?$', s)
+                if lw_cache.setdefault(fn, loop_word(facts, b[fn])) is not None and re.match(r'(id\(|mul\()', s):
+                    continue          # results of the accumulation loop after 0 / 1 iterations (read by loop_word)
+                m = re.match(r'(?:clone\()?index\(arg1\.(\w+), (\d+)\)\)?$', s) or re.match(r'(?:clone\()?(?:as_slice\()?arg1\.(\w+)\)?\[(\d+)\]\)?$', s)
                 inst = 'Trans::%s|single-factor shortcut uses the list it tested' % fn
                 if not m:
                     raise Bad('%s returns %s' % (fn, s[:80]))
@@ -118,7 +157,23 @@ def run(facts, rep):
                     rep.violation('E27.W2-shortcut-guard', inst,
                                   'Trans::%s returns %s[%d] under the test %s: the shortcut must test the length of %s itself (inside reduce() f_mats is already collapsed to one factor while b_mats still has all of them, so the product b0*...*bn is replaced by b0)' %
                                   (fn, used, idx, ['len(%s) %s %d = %s' % (f, op, c, v) for op, f, c, v in lens], wf), where=b[fn].where())
-            if folds != 1:
+            if folds == 0:
+                lw = lw_cache.setdefault(fn, loop_word(facts, b[fn]))
+                if lw is None:
+                    raise Bad('%s has neither a fold nor a recognisable accumulation loop' % fn)
+                field, word, init = lw
+                norm = lambda w: [x for x in w if x != 'init'] if fn.endswith('_mat') else w
+                inst = 'Trans::%s|%s' % (fn, ' '.join(('%s%s' % (wf[0], x)) if x != 'init' else ('v' if not fn.endswith('_mat') else '1') for x in ww))
+                probs = []
+                if field != wf:
+                    probs.append('accumulates over %s instead of %s' % (field, wf))
+                if norm(word) != norm(ww):
+                    probs.append('composes the factors as %s, expected %s' % (' '.join(word), ' '.join(ww)))
+                if probs:
+                    rep.violation('E27.W1-factor-order', inst, 'Trans::%s %s' % (fn, '; '.join(probs)), where=b[fn].where())
+                else:
+                    rep.ok('E27.W1-factor-order', inst, 'loop over %s, word %s' % (field, ' '.join(word)))
+            elif folds != 1:
                 raise Bad('%s has %d fold paths' % (fn, folds))
         # W3
         ok3 = True
